@@ -7,7 +7,9 @@ Ring 1: FM/Props/C13.lean — ISO (threads of a process whose shared state is co
 Ring 2: the translator itself (harness/translate_state.py): a changed classification of any shared cell breaks
         INVENTORY_CLEAN; the search below then looks for a concrete history / schedule.
 Ring 3: histories (a call after k random earlier calls = the same call alone, in a fresh process too) and schedules (several
-        threads formatting different documents with forced switching at function calls = each alone).
+        threads formatting different documents with forced switching at function calls = each alone); shared values (one
+        flowmark_markdown() object formatting several documents in turn = each on a new object; several threads whose calls were
+        given one and the same line wrapper value — a module-level default or a wrapper built once — = each with its own).
 """
 from __future__ import annotations
 
@@ -281,6 +283,222 @@ def api_histories(ctx: Ctx, n: int) -> None:
             return
 
 
+# ------------------------------------------------------------------------------------------------------------------
+# shared values: ONE object returned by flowmark_markdown() used for several documents, ONE line wrapper value (an
+# option of flowmark_markdown / fill_markdown, and the module-level defaults) used by several calls and several threads.
+# The property text: the output is a function of text and options only, whatever was formatted earlier and whatever
+# runs at the same time — so the reference of every call is the same call on values nobody else has used.
+
+# blocks that leave the renderer in different states when a document ENDS with them (spacing flags, list tightness,
+# prefixes, inline text) and that read that state when a document STARTS with them
+BOUNDARY_BLOCKS = [
+    "Some closing words here. And a second sentence follows it.",
+    "## A heading",
+    "Setext heading\n===",
+    "> quoted words\n> and more of them",
+    "> [!NOTE]\n> body of the alert",
+    "```\ncode\n```",
+    "    indented code",
+    "- first item\n\n- second item",
+    "1. one\n\n2. two\n\n3. three",
+    "- a\n- b",
+    "* a\n  - b\n\n  - c",
+    "- item\n\n  para in item\n\n  ```\n  code\n  ```",
+    "> - a\n>\n> - b",
+    "1. x\n   > quote in item",
+    "| a | b |\n|---|---|\n| 1 | 2 |",
+    "[ref]: http://example.com 'T'",
+    "see [ref] and[^n]",
+    "[^n]: note text\n\n    second paragraph of the note",
+    "<div>\nraw\n</div>",
+    "***",
+    "{% tag %}\n- x\n- y\n{% /tag %}",
+    "<!-- comment -->",
+    "line one\\\nline two  \nline three",
+    "**Bold only line**",
+]
+
+WRAPPER_SPECS = [("sentence", 88), ("sentence", 40), ("sentence", 24), ("width", 88), ("width", 30), ("sentence", 0), ("width", 0)]
+
+
+def make_wrapper(spec):
+    """a line wrapper value that no other call has seen"""
+    from flowmark import line_wrap_by_sentence, line_wrap_to_width
+    kind, w = spec
+    return (line_wrap_by_sentence if kind == "sentence" else line_wrap_to_width)(width=w, is_markdown=True)
+
+
+def boundary_document(rng) -> str:
+    return "\n\n".join(rng.choice(BOUNDARY_BLOCKS) for _ in range(rng.randint(1, 3))) + "\n"
+
+
+def prose_paragraph(rng, tag: str) -> str:
+    """several sentences; every sentence carries the tag of its document so that text of one call showing up in another call's
+    result is recognisable"""
+    sents = []
+    for s in range(rng.randint(2, 6)):
+        ws = [rng.choice(mdgen.WORDS) for _ in range(rng.randint(2, 12))]
+        ws.insert(rng.randrange(len(ws) + 1), f"{tag}s{s}")
+        sents.append(" ".join(ws).capitalize() + rng.choice([".", ".", "!", "?", "...", ".\""]))
+    return " ".join(sents)
+
+
+def prose_document(rng, tag: str) -> str:
+    """multi-sentence paragraphs: plain, quoted, in list items"""
+    blocks = []
+    for p in range(rng.randint(1, 3)):
+        pre, cont = rng.choice([("", ""), ("", ""), ("> ", "> "), ("- ", "  "), ("1. ", "   "), ("> - ", ">   ")])
+        lines = mdgen.lay_out(rng, prose_paragraph(rng, f"{tag}p{p}"), hard_breaks=False)
+        blocks.append("\n".join((pre if i == 0 else cont) + l for i, l in enumerate(lines)))
+    return "\n\n".join(blocks) + "\n"
+
+
+class Shared:
+    """the shared values of one run and the references computed on fresh ones"""
+
+    def __init__(self):
+        import flowmark.formats.flowmark_markdown as fmod
+        self.shared = {spec: make_wrapper(spec) for spec in WRAPPER_SPECS}
+        # the module-level defaults: ("default",) = the argument left out; the named constants when the module has them
+        self.shared[("default",)] = None
+        for name in ("DEFAULT_SEMANTIC_LINE_WRAPPER", "DEFAULT_FIXED_LINE_WRAPPER"):
+            if callable(getattr(fmod, name, None)):
+                self.shared[("module", name)] = getattr(fmod, name)
+        self.specs = list(self.shared)
+        self.refs: dict = {}
+
+    def run(self, entry, spec, ls, doc, wrapper="shared", md=None):
+        """one call. entry: object (flowmark_markdown(w, ls).convert) | fill (fill_markdown(line_wrapper=w)) | direct (w(text, '', ''))"""
+        from flowmark import fill_markdown, flowmark_markdown
+        w = self.shared[spec] if wrapper == "shared" else wrapper
+        if entry == "object":
+            m = md if md is not None else (flowmark_markdown(list_spacing=ls) if w is None else flowmark_markdown(w, ls))
+            return m.convert(doc)
+        if entry == "fill":
+            return fill_markdown(doc, line_wrapper=w, list_spacing=ls)
+        return w(doc, "", "")
+
+    def entries(self, spec):
+        return ("object",) if spec == ("default",) else ("object", "fill", "direct")
+
+    def ref(self, entry, spec, ls, doc):
+        """the same call with a wrapper (and Markdown object) nobody else has used; for the module-level defaults, which cannot be
+        built anew, the result of the first call made with them — made before any thread starts, and itself part of the histories"""
+        key = (entry, spec, ls, doc)
+        if key not in self.refs:
+            fresh = make_wrapper(spec) if spec in WRAPPER_SPECS else self.shared[spec]
+            self.refs[key] = self.run(entry, spec, ls, doc, wrapper=fresh)
+        return self.refs[key]
+
+
+def object_reuse_histories(ctx: Ctx, sh: Shared, docs, n: int) -> None:
+    """one object from flowmark_markdown() (and one wrapper value) formats a sequence of documents; each result = that document on a
+    new object with a new wrapper"""
+    from flowmark import flowmark_markdown
+    from flowmark.formats.flowmark_markdown import ListSpacing
+    rng = ctx.rng
+    for h in range(n):
+        spec = rng.choice(sh.specs)
+        ls = rng.choice(list(ListSpacing))
+        seq = [boundary_document(rng) if rng.random() < 0.6 else rng.choice(docs) for _ in range(rng.randint(2, 4))]
+        refs = [sh.ref("object", spec, ls, d) for d in seq]
+        w = sh.shared[spec]
+        m = flowmark_markdown(list_spacing=ls) if w is None else flowmark_markdown(w, ls)
+        style = rng.choice(["convert", "call", "parse-render", "parse-all-then-render"])
+        if style == "convert":
+            got = [m.convert(d) for d in seq]
+        elif style == "call":
+            got = [m(d) for d in seq]
+        elif style == "parse-render":
+            got = [m.render(m.parse(d)) for d in seq]
+        else:
+            parsed = [m.parse(d) for d in seq]
+            got = [m.render(p) for p in parsed]
+        ctx.count(["object-reuse", spec, str(ls), style, seq], nontrivial=True, sample=(h % 61 == 5))
+        ctx.bump("object-reuse-histories")
+        for i, (g, r) in enumerate(zip(got, refs)):
+            if g != r:
+                ctx.fail("REUSE: a document formatted with an object of flowmark_markdown() that has formatted other documents before "
+                         "comes out differently than on a new object",
+                         {"earlier": seq[:i], "doc": seq[i], "wrapper": spec, "list_spacing": str(ls), "style": style},
+                         {"new-object": r[:600], "reused-object": g[:600]})
+                return
+
+
+def shared_wrapper_schedules(ctx: Ctx, sh: Shared, docs, rounds: int, threads: int) -> None:
+    """threads format different documents at the same time through calls that were given the SAME line wrapper value (one of the
+    module-level defaults, or one wrapper built once); each result = the call with a wrapper of its own.
+    Every call builds its own Markdown object: ONE object of flowmark_markdown() is deliberately not handed to several threads at the
+    same time. On the pinned code that is a race (convert() stores the parser/renderer it has just built on the object and reads them
+    back, so a thread switched out right after _setup_extensions() returns renders with — and resets — the other thread's renderer:
+    "> - x3\n>   y" came out as "> \n> >   > x3 y"); whether the property text means it (one object = one caller) is for the owner
+    of the property to decide, see the report of this family."""
+    from flowmark.formats.flowmark_markdown import ListSpacing
+    rng = ctx.rng
+    old = sys.getswitchinterval()
+    for r in range(rounds):
+        # all threads of a round use one wrapper value: that is the sharing under test
+        spec = rng.choice([s for s in sh.specs if s[0] != "width"] if r % 2 == 0 else sh.specs)
+        picks = []
+        for t in range(threads):
+            calls = []
+            for c in range(rng.randint(2, 3)):
+                entry = rng.choice(sh.entries(spec))
+                if entry == "direct":
+                    doc = prose_paragraph(rng, f"r{r}t{t}c{c}")
+                else:
+                    doc = prose_document(rng, f"r{r}t{t}c{c}") if rng.random() < 0.7 else rng.choice(docs)
+                calls.append((entry, spec, rng.choice(list(ListSpacing)), doc))
+            picks.append(calls)
+        refs = [[sh.ref(*c) for c in calls] for calls in picks]        # alone, before any thread runs
+        results: list[list] = [[] for _ in range(threads)]
+        errors: list = []
+        barrier = threading.Barrier(threads)
+
+        def work(t):
+            try:
+                barrier.wait()
+                for c in picks[t]:
+                    results[t].append(sh.run(*c))
+            except Exception as e:            # noqa: BLE001
+                errors.append(repr(e))
+        sys.setswitchinterval(1e-6)
+        threading.settrace(Yielder(rng.randrange(1 << 30), (0.3, 0.05, 0.1)[r % 3]))
+        ths = [threading.Thread(target=work, args=(t,)) for t in range(threads)]
+        try:
+            for th in ths:
+                th.start()
+            for th in ths:
+                th.join()
+        finally:
+            threading.settrace(None)
+            sys.setswitchinterval(old)
+        ctx.count(["shared-wrapper-schedule", spec, [[(c[0], c[3][:40]) for c in calls] for calls in picks]], nontrivial=True, sample=(r % 17 == 2))
+        ctx.bump("shared-wrapper-schedules")
+        if errors:
+            ctx.fail("THREADS (shared line wrapper): a call raised when run concurrently with calls given the same line wrapper value",
+                     {"wrapper": spec, "calls": [[{"entry": c[0], "doc": c[3][:300]} for c in calls] for calls in picks]}, errors[:3])
+            return
+        for t in range(threads):
+            for c, got, ref in zip(picks[t], results[t], refs[t]):
+                if got != ref:
+                    ctx.fail("THREADS (shared line wrapper): a call run concurrently with calls that were given the same line wrapper value "
+                             "returns something else than alone",
+                             {"entry": c[0], "wrapper": spec, "list_spacing": str(c[2]), "doc": c[3],
+                              "concurrent_with": [{"entry": cc[0], "doc": cc[3][:300]} for tt in range(threads) if tt != t for cc in picks[tt]][:6]},
+                             {"alone": ref[:600], "concurrent": got[:600]})
+                    return
+
+
+def shared_values(ctx: Ctx, docs, n_hist: int, rounds: int, threads: int) -> None:
+    sh = Shared()
+    before = len(ctx.failing)
+    object_reuse_histories(ctx, sh, docs, n_hist)
+    if len(ctx.failing) > before:
+        return
+    shared_wrapper_schedules(ctx, sh, docs, rounds, threads)
+
+
 def run(ctx: Ctx) -> None:
     lean_obligations(ctx, need_driver=False)
     jobs = job_pool(ctx, ctx.scale(40, 400))
@@ -288,6 +506,12 @@ def run(ctx: Ctx) -> None:
     histories(ctx, jobs, solo, ctx.scale(250, 5000))
     schedules(ctx, jobs, solo, ctx.scale(40, 1000), threads=4)
     api_histories(ctx, ctx.scale(60, 1000))
+    shared_values(ctx, [d for d, _ in jobs[::2]], ctx.scale(120, 4000), ctx.scale(8, 300), threads=4)
+    ctx.rule("shared values: one flowmark_markdown() object formatting 2–4 documents (every pairing of how a document ends with how the next "
+             "one starts: paragraph, heading, quote, alert, code, loose/tight/nested list, table, definitions, HTML, rule, tag; convert / call / "
+             "parse+render / parse-all-then-render) against a new object; 4 threads × 2–4 calls (flowmark_markdown().convert, fill_markdown("
+             "line_wrapper=w), w(text) on multi-sentence tagged prose) all given ONE line wrapper value — the module-level defaults or a "
+             "wrapper built once — against the same call with a wrapper of its own")
     ctx.rule("documents with colliding link-definition and footnote labels, deep prefixes, loose/tight lists, tags, frontmatter + generated "
              "documents × 10 option sets; histories of 1–6 earlier calls; 4 threads × 2–5 calls each with a 1 µs switch interval and "
              "seeded yields at 2% of the function calls inside flowmark/marko; fresh-interpreter results for a sample")
@@ -302,6 +526,7 @@ def search(ctx: Ctx) -> None:
     histories(ctx, jobs, solo, 4000)
     schedules(ctx, jobs, solo, 400, threads=6)
     api_histories(ctx, 600)
+    shared_values(ctx, [d for d, _ in jobs[::2]], 3000, 150, threads=6)
 
 
 def replay(ctx: Ctx, path: str) -> int:
